@@ -369,19 +369,19 @@ def _get_rootfinder_default_method(method):
     if method is None:
         return "broyden1"
     else:
-        return method
+        return method.lower() if isinstance(method, str) else method
 
 def _get_equilibrium_default_method(method):
     if method is None:
         return _get_rootfinder_default_method(method)
     else:
-        return method
+        return method.lower() if isinstance(method, str) else method
 
 def _get_minimizer_default_method(method):
     if method is None:
         return "broyden1"
     else:
-        return method
+        return method.lower() if isinstance(method, str) else method
 
 
 # docstring completion
